@@ -109,7 +109,9 @@ def build_spec(recipe):
         {"id": "like", "type": "TreeLikelihoodModel",
          "tree_model": {"id": "tree", "type": "UnRootedTreeModel", "newick": newick, "taxa": "taxa",
                         "branch_lengths": {"id": "blens", "type": "Parameter", "tensor": base}},
-         "site_model": {"id": "sitemodel", "type": "ConstantSiteModel"},
+         "site_model": ({"id": "sitemodel", "type": "ConstantSiteModel"} if recipe.get("categories", 1) == 1 else
+                        {"id": "sitemodel", "type": "WeibullSiteModel", "categories": recipe["categories"],
+                         "shape": {"id": "shape", "type": "Parameter", "tensor": [recipe.get("shape_value", 0.7)]}}),
          "substitution_model": subst,
          "site_pattern": {"id": "patterns", "type": "SitePattern", "alignment": "alignment"},
          "use_tip_states": bool(recipe.get("tip_states", False))},
@@ -149,6 +151,7 @@ class Machine:
         self.stats = {"evals": 0, "rows": 0, "switches": 0, "twin_checks": 0}
         self.prev_state = None
         self._ref_cache = {}
+        self._cats = None
 
     def reference(self, scale, kappa):
         import numpy as np
@@ -157,7 +160,21 @@ class Machine:
         if key not in self._ref_cache:
             bl = np.asarray(self.base) * scale
             pi = self.recipe.get("freqs", [0.3, 0.2, 0.15, 0.35])
-            sl = refprune.site_log_likelihoods(self.postorder, self.n, bl, self.seqs, self.recipe["model"], kappa, pi)
+            if self.recipe.get("categories", 1) == 1:
+                sl = refprune.site_log_likelihoods(self.postorder, self.n, bl, self.seqs, self.recipe["model"], kappa, pi)
+            else:
+                # category rates / proportions are inputs of the reference (they are property C05);
+                # the mixture over categories is done here in log space
+                if self._cats is None:
+                    import torch
+
+                    sm = self.twin_dic["sitemodel"]
+                    with torch.no_grad():
+                        self._cats = (sm.rates().reshape(-1).tolist(), sm.probabilities().reshape(-1).tolist())
+                rates, probs = self._cats
+                per = [refprune.site_log_likelihoods(self.postorder, self.n, bl * r, self.seqs, self.recipe["model"], kappa, pi) + math.log(p)
+                       for r, p in zip(rates, probs) if p > 0]
+                sl = refprune._lse(np.stack(per), axis=0)
             self._ref_cache[key] = (float(np.sum(sl)), float(np.min(sl)))
         return self._ref_cache[key]
 
@@ -238,7 +255,7 @@ class Machine:
                 if math.isfinite(t) and math.isfinite(v) and abs(t - v) > 1e-8 * abs(ref):
                     self.violate("twin", flag_before, band, "row %d: model %.12g and always-rescaled twin %.12g disagree" % (r, v, t), batched)
                     ok = False
-        state = "%s|%s|%s|%s" % ("R" if flag_before else "P", "batched" if batched else "single", "+".join(sorted(set(bands))), "states" if self.recipe.get("tip_states") else "partials")
+        state = "%s|%s|%s|%s|K%d" % ("R" if flag_before else "P", "batched" if batched else "single", "+".join(sorted(set(bands))), "states" if self.recipe.get("tip_states") else "partials", self.recipe.get("categories", 1))
         self.states.append("%s -> %s" % (self.prev_state, state))
         self.prev_state = state
         return ok
@@ -296,7 +313,8 @@ def generate(seed, index, tier):
     k = st["knobs"]
     taxa = k.choice([50, 120, 250, 330, 340, 400, 520, 560, 700, 1000, 1500]) if tier == "thorough" else k.choice([50, 120, 250, 330, 340, 400, 520, 560, 700])
     recipe = {"taxa": taxa, "sites": k.randint(6, 24), "shape": k.choice(["caterpillar", "balanced", "random"]), "style": k.choice(["random", "conserved", "conserved"]),
-              "model": k.choice(["JC69", "HKY"]), "tip_states": k.bernoulli(0.4), "data_seed": k.next64() & 0xFFFFFFFF, "kappa": round(k.uniform(0.5, 6.0), 3)}
+              "model": k.choice(["JC69", "HKY"]), "tip_states": k.bernoulli(0.4), "data_seed": k.next64() & 0xFFFFFFFF, "kappa": round(k.uniform(0.5, 6.0), 3),
+              "categories": k.choice([1, 1, 2, 4]), "shape_value": round(k.uniform(0.3, 2.0), 3)}
     m = Machine(recipe, EventLog())
     sc = find_scales(m, recipe["kappa"])
     avail = [b for b in ("normal", "subnormal", "underflow") if sc[b] is not None]
